@@ -88,6 +88,8 @@ def agg(population, kind, role, x):
 
 '''
 
+HEADER_IMPORTS = "\n"
+
 _UNIT = {
     "month": "DateUnit.MONTH",
     "year": "DateUnit.YEAR",
@@ -178,6 +180,7 @@ class _ExprCompiler:
 
 def formula_src(world, var, start, expr) -> str:
     comp = _ExprCompiler(world, var)
+    annual = bool(var.get("annualized"))
     t = var["type"]
     if expr[0] == "c" and t in ("float", "int"):
         body = repr(float(expr[1]) if t == "float" else int(expr[1]))  # scalar, engine broadcasts
@@ -198,19 +201,45 @@ def formula_src(world, var, start, expr) -> str:
             raise ValueError(t)
     name = "formula" if start == "0001-01-01" else "formula_" + start.replace("-", "_")
     args = "population, period, parameters" if comp.uses_params else "population, period"
+    pre = ""
+    if annual:
+        # spec-level meaning of an annualised variable, written from the statement:
+        # months other than January yield that year's January value
+        pre = "        period = period.this_year.first_month if period.start.month != 1 else period\n"
     return (
         f"    def {name}({args}):\n"
+        f"{pre}"
         f"        _f = ctx.enter({var['name']!r}, period)\n"
         f"        return _f.leave({body})\n"
     )
 
 
-def variable_src(world, var) -> str:
+def variable_src(world, var, partial=None) -> str:
+    """partial: the attributes an *update* redefines (the rest is inherited from
+    the variable being updated); `var` is then the merged specification, used for
+    typing the formulas."""
     lines = [f"class {var['name']}(Variable):"]
+    if partial is not None:
+        if "default" in partial and var["type"] != "enum":
+            if var["type"] == "date":
+                y, m, d = (int(x) for x in partial["default"].split("-"))
+                lines.append(f"    default_value = datetime.date({y}, {m}, {d})")
+            else:
+                lines.append(f"    default_value = {partial['default']!r}")
+        if partial.get("end"):
+            lines.append(f"    end = {partial['end']!r}")
+        if partial.get("label"):
+            lines.append(f"    label = {partial['label']!r}")
+        lines.append("    pass")
+        lines.append("")
+        out = "\n".join(lines) + "\n"
+        for start in sorted(partial.get("formulas", {})):
+            out += formula_src(world, var, start, partial["formulas"][start]) + "\n"
+        return out
     lines.append(f"    value_type = {_TYPE[var['type']]}")
     lines.append(f"    entity = ENT[{var['entity']!r}]")
     lines.append(f"    definition_period = {_UNIT[var['unit']]}")
-    lines.append(f"    label = {('label of ' + var['name'])!r}")
+    lines.append(f"    label = {var.get('label', 'label of ' + var['name'])!r}")
     if var["type"] == "enum":
         lines.append(f"    possible_values = {var['enum']}")
         lines.append(f"    default_value = {var['enum']}.{var['default']}")
@@ -228,6 +257,8 @@ def variable_src(world, var) -> str:
         lines.append(f"    set_input = set_input_{var['set_input']}_by_period")
     lines.append("")
     out = "\n".join(lines) + "\n"
+    if var.get("neutralized"):
+        return out  # always its default: no formula
     for start in sorted(var.get("formulas", {})):
         out += formula_src(world, var, start, var["formulas"][start]) + "\n"
     return out
@@ -324,6 +355,7 @@ class World:
             self.filename,
         )
         exec(compile(self.src, self.filename, "exec"), self.ns)  # noqa: S102
+        self.extra_files = []
         self.var_specs = {v["name"]: v for v in spec["variables"]}
         self.var_classes = [self.ns[v["name"]] for v in spec["variables"]]
         self.tbs = self.make_system()
@@ -335,8 +367,26 @@ class World:
             tbs.parameters = ParameterNode("", data=parameters_data(self.spec["parameters"]))
         return tbs
 
+    def compile_variable(self, var: dict, partial: dict | None = None):
+        """A (possibly partial) Variable class in this world's namespace, for reforms."""
+        World._n_extra += 1
+        src = HEADER_IMPORTS + variable_src(self.spec_for_typing(var), var, partial)
+        filename = f"<dsim-world-{self.digest}-x{World._n_extra}>"
+        linecache.cache[filename] = (len(src), None, src.splitlines(True), filename)
+        self.extra_files.append(filename)
+        ns = dict(self.ns)
+        exec(compile(src, filename, "exec"), ns)  # noqa: S102
+        return ns[var["name"]]
+
+    def spec_for_typing(self, var):
+        return self.spec
+
+    _n_extra = 0
+
     def close(self) -> None:
         linecache.cache.pop(self.filename, None)
+        for f in self.extra_files:
+            linecache.cache.pop(f, None)
 
 
 def tile(values, count, var_spec, world: World):
